@@ -320,6 +320,12 @@ fn right_pass(m: M, stored: &Option<String>, given: &Option<String>) -> bool {
     }
 }
 
+/// SQLITE_BUSY out of the connection-pool set-up (before any key is looked at)
+fn pool_busy(e: &askar_storage::Error) -> bool {
+    let t = format!("{:?}", e);
+    t.contains("database is locked") && t.contains("database pool")
+}
+
 type Snapshot = Vec<Vec<Vec<Val>>>;
 
 /// every row of every table, read out of band
@@ -498,7 +504,24 @@ impl Life {
                 let recreate = b(op, "recreate");
                 let on_existing = self.rf.exists && !recreate;
                 let before = if on_existing { snapshot(&path) } else { None };
-                let res = block_on(async { uri.as_str().provision_backend(method, passkey(&pass), profile.clone(), recreate).await });
+                // Creating a fresh WAL-mode file can fail with SQLITE_BUSY ("database is locked", raised while the pool is being
+                // set up and its connections race on the journal-mode switch).  That is not a key-handling outcome: put the file
+                // system back to where it was and call again; the retries are counted.
+                let existed = std::path::Path::new(&path).exists();
+                let mut attempt = 0;
+                let res = loop {
+                    let r = block_on(async { uri.as_str().provision_backend(method.clone(), passkey(&pass), profile.clone(), recreate).await });
+                    match &r {
+                        Err(e) if attempt < 20 && pool_busy(e) => {
+                            bump(&mut self.feat, "retry:pool-busy");
+                            self.diag.push(format!("{}: retry after {:?}", self.step, e));
+                            attempt += 1;
+                            std::thread::sleep(std::time::Duration::from_millis(20 * attempt));
+                            if !existed || recreate { self.cleanup(); }
+                        }
+                        _ => break r,
+                    }
+                };
                 match res {
                     Ok(bk) => {
                         let active = bk.get_active_profile();
@@ -542,7 +565,19 @@ impl Life {
                 let pass = so(op, "pass");
                 let profile = so(op, "profile").map(|p| self.subst(p));
                 let before = if self.rf.exists { snapshot(&path) } else { None };
-                let res = block_on(async { uri.as_str().open_backend(method, passkey(&pass), profile.clone()).await });
+                let mut attempt = 0;
+                let res = loop {
+                    let r = block_on(async { uri.as_str().open_backend(method.clone(), passkey(&pass), profile.clone()).await });
+                    match &r {
+                        Err(e) if attempt < 20 && pool_busy(e) => {
+                            bump(&mut self.feat, "retry:pool-busy");
+                            self.diag.push(format!("{}: retry after {:?}", self.step, e));
+                            attempt += 1;
+                            std::thread::sleep(std::time::Duration::from_millis(20 * attempt));
+                        }
+                        _ => break r,
+                    }
+                };
                 match res {
                     Ok(bk) => {
                         let active = bk.get_active_profile();
